@@ -303,7 +303,7 @@ def rule_reindex_like(ctx):
         e = calls[0]
         c = e.a
         recv = T.call_receiver(c)
-        alts = T.strip_phi(recv)
+        alts = T.value_alts(recv)
         if not any(x[0] == 'carried' for x in alts):
             ctx.violated('R4', fi, e.node, 'each dimension must be reindexed starting from the result of the previous one (obj = obj.reindex_axis(...)); '
                          'here every iteration restarts from %s, so only the last shared dimension ends up reindexed' % T.show(recv)[:60], node=e.node)
@@ -356,7 +356,7 @@ def rule_reindex_like(ctx):
         if dict(c[3]).get('**') != P_('**kwargs'):
             ctx.violated('R4', fi, e.node, 'keyword options (fill_value, method, raise_error) must be forwarded', node=e.node)
             continue
-        if not any(x[0] == 'call' and T.call_name(x) == 'reindex_axis' for x in T.strip_phi(p.value)):
+        if not any(x[0] == 'call' and T.call_name(x) == 'reindex_axis' for x in T.value_alts(p.value)):
             ctx.violated('R4', fi, 'return ' + T.show(p.value)[:100], 'the accumulated result must be returned', node=p.node)
             continue
         ctx.holds('R4', 'reindex_like: obj = obj.reindex_axis(other.axes[name].values, axis=name, **kwargs) for shared dims')
